@@ -169,6 +169,11 @@ def run(ctx):
     ctx.rule("C01-once", "operator and operands are evaluated exactly once, outside loops, before the application")
     d_once = evaltables.rule_once(ctx, "C01-once")
     evaltables.rule_trampoline(ctx, "C01-once", {"once"})      # ... and for a call in tail position (tail evaluator + trampoline together)
+    # a call applies the value its operator has when the call is made: the operator of every pending tail call is evaluated, in the
+    # environment of the turn that made it (the same name / the same call site on consecutive turns may denote different procedures)
+    ctx.rule("C01-operator-value", "the procedure applied by a tail call is the value of its operator expression at that call (trampoline "
+                                   "table: three turns through one operator name / one call site bound to a different procedure each time)")
+    evaltables.rule_trampoline(ctx, "C01-operator-value", {"operator"})
     def _old_once():
         reg, _ = arm(ee, "ExpressionBody", vidx["ProcedureCall"])
         once_rule(ctx, fb, ee, reg, ee.name, ap.name, ("ProcedureCall", 0), ("ProcedureCall", 1), "eval_expression")
